@@ -217,7 +217,7 @@ func buildRecord(c RecCase, setID uint, rng *rand.Rand) []byte {
 
 func runRecord(dir string, e *RecEdge, seed int64) {
 	rng := rand.New(rand.NewSource(seed))
-	for _, setID := range []uint{1, 2} {
+	for _, setID := range []uint{1, 2, 3} { // 3: scrypt with explicit r and p (p != r)
 		for _, ext := range []string{".user", ".admin"} {
 			if ext == ".admin" && rng.Intn(3) != 0 {
 				continue
@@ -234,7 +234,7 @@ func runRecord(dir string, e *RecEdge, seed int64) {
 			boss, _ := concrete.MakeRecord(sets[1], []byte("boss"), 1500000000, rng)
 			must(os.WriteFile(filepath.Join(base, "boss.admin"), []byte(boss), 0600))
 			cfg := filepath.Join(dir, "store.yaml")
-			must(os.WriteFile(cfg, []byte(concrete.ConfigYAML(base, setID, sets, []uint{1, 2})), 0600))
+			must(os.WriteFile(cfg, []byte(concrete.ConfigYAML(base, setID, sets, []uint{1, 2, 3})), 0600))
 			d, err := store.NewDirFromConfig(cfg)
 			must(err)
 			key := fmt.Sprintf("%+v", e.Case)
